@@ -1,6 +1,7 @@
 // C19 shared harness pieces: a pull MetricReader, a canonical view of what a reader sees, a silent
 // SDK log handler.
 #pragma once
+#include <algorithm>
 #include <map>
 #include <string>
 #include <vector>
@@ -68,13 +69,18 @@ inline std::string owned_str(const ot::sdk::common::OwnedAttributeValue &v) {
 // One metric stream as a reader sees it.
 struct Stream {
   std::string scope;  // name|version|schema of the meter
+  std::string scope_attrs;  // k=v,... of the meter's scope attributes (sorted by key); empty under ABI v1
   std::string name, desc, unit;
   int type = -1, value_type = -1;
   std::string kind;    // sum / sum-nonmono / hist / last / drop / empty / mixed
   std::string points;  // "{k=v,...}:value;" per point, attribute order = ordered map order
   size_t npoints = 0;
+  // histogram points only: "[b0,b1,...]" of the first point, "!" appended when the points disagree; whether min/max are recorded
+  std::string bounds;
+  bool minmax = true;
   std::string canon() const {
-    return scope + "/" + vfq::printable(name, 40) + "/" + desc + "/" + vfq::printable(unit, 20) + vf::sfmt("/t%d/v%d/", type, value_type) + kind + "/" + points;
+    return scope + "/" + vfq::printable(name, 40) + "/" + desc + "/" + vfq::printable(unit, 20) + vf::sfmt("/t%d/v%d/", type, value_type) + kind +
+           (bounds.empty() ? "" : bounds.size() <= 16 ? bounds : vf::sfmt("[%zu bounds]", (size_t)std::count(bounds.begin(), bounds.end(), ',') + 1)) + (minmax ? "" : "-nominmax") + "/" + points;
   }
 };
 
@@ -83,9 +89,14 @@ inline std::vector<Stream> collect(sm::MetricReader &reader) {
   reader.Collect([&](sm::ResourceMetrics &rm) {
     for (auto &sc : rm.scope_metric_data_) {
       std::string scope = sc.scope_->GetName() + "|" + sc.scope_->GetVersion() + "|" + sc.scope_->GetSchemaURL();
+      std::map<std::string, std::string> sorted_attrs;
+      for (auto &kv : sc.scope_->GetAttributes()) sorted_attrs[kv.first] = owned_str(kv.second);
+      std::string scope_attrs;
+      for (auto &kv : sorted_attrs) scope_attrs += (scope_attrs.empty() ? "" : ",") + kv.first + "=" + kv.second;
       for (auto &md : sc.metric_data_) {
         Stream s;
         s.scope = scope;
+        s.scope_attrs = scope_attrs;
         s.name = md.instrument_descriptor.name_;
         s.desc = md.instrument_descriptor.description_;
         s.unit = md.instrument_descriptor.unit_;
@@ -103,6 +114,12 @@ inline std::vector<Stream> collect(sm::MetricReader &reader) {
             auto &d = nostd::get<sm::HistogramPointData>(p.point_data);
             k = "hist";
             v = vf::sfmt("n%llu,s", (unsigned long long)d.count_) + value_str(d.sum_);
+            std::string b = "[";
+            for (double x : d.boundaries_) b += (b.size() > 1 ? "," : "") + vf::sfmt("%g", x);
+            b += "]";
+            if (s.bounds.empty()) s.bounds = b;
+            else if (s.bounds != b) s.bounds += "!";
+            s.minmax = s.minmax && d.record_min_max_;
           } else if (nostd::holds_alternative<sm::LastValuePointData>(p.point_data)) {
             auto &d = nostd::get<sm::LastValuePointData>(p.point_data);
             k = "last";
